@@ -156,6 +156,28 @@ def build(ep, cls, rng):
         Ssp = _sp(F)
         other = {"unsupported_operand": [[1.0] * 1] * n}.get(cls, q_from_float(rng.standard_normal((n, 2, 4))))
         return (lambda: Ssp @ other), [Ssp]
+    if ep.startswith("product_"):
+        # left operand m x n; the right operand is conformable (n x k) in the in-domain classes and has a wrong inner
+        # dimension otherwise - including the pairs a broadcasting product would silently answer (a 1x1 operand)
+        shapes = {"inner_mismatch": ((3, 2), (3, 2)), "inner_mismatch_1x1_right": ((3, 2), (1, 1)), "inner_mismatch_1x1_left": ((1, 1), (3, 2)),
+                  "inner_mismatch_vector": ((3, 3), (2, 1)), "outer_swapped": ((2, 1), (2, 1))}
+        if cls in shapes:
+            FB, FC = rng.standard_normal(shapes[cls][0] + (4,)), rng.standard_normal(shapes[cls][1] + (4,))
+        else:
+            FB, FC = F, rng.standard_normal((n, 1 + int(rng.integers(0, 3)) if n > 1 or rng.integers(0, 2) else 1, 4))
+        if ep == "product_planes":
+            planes = [np.ascontiguousarray(X[..., c]).copy() for X in (FB, FC) for c in range(4)]
+            return (lambda: u.timesQsparse(*planes)), planes
+        Bq, Cq = q_from_float(FB), q_from_float(FC)
+        Bs, Cs = _sp(FB), _sp(FC)
+        alt = bool(rng.integers(0, 2))
+        if ep == "product_dense":
+            return (lambda: u.quat_matmat(Bq, Cq)), [Bq, Cq]
+        if ep == "product_sparse_dense":
+            return (lambda: (Bs @ Cq) if alt else u.quat_matmat(Bs, Cq)), [Bs, Cq]
+        if ep == "product_dense_sparse":
+            return (lambda: u.quat_matmat(Bq, Cs)), [Bq, Cs]
+        return (lambda: (Bs @ Cs) if alt else u.quat_matmat(Bs, Cs)), [Bs, Cs]
     if ep in ("quaternion_modulus", "quaternion_triu", "quaternion_tril"):
         return (lambda: getattr(L.LU, ep)(A)), [A]
     if ep == "normQsparse":
